@@ -177,9 +177,12 @@ def scan_rename_stream(ctx: Ctx, n: int):
         # qualified: decided once per abstract case, the same for every naming
         short_form = {(f, j): (rng.random() < 0.5) for f in leaves for j in range(4)}
         root_id = rng.randrange(9)
-        for names in (FREE, [ADV[perm[i]] for i in range(9)], [ADV2[perm[(i + 4) % 9]] for i in range(9)]):
+        # a fourth naming in which the root directory's name is a string prefix of EVERY component name
+        PFX = ["pa", "p_", "pp", "p1", "pb", "pab", "p_p", "px", "p0"]
+        for names in (FREE, [ADV[perm[i]] for i in range(9)], [ADV2[perm[(i + 4) % 9]] for i in range(9)], [PFX[perm[(i + 2) % 9]] for i in range(9)]):
             # the root directory is named like one of the components (FREE: m0..m8; adversarial: a name that is a prefix of others)
-            root = names[root_id] if it % 2 else "proj"
+            # (the same choice under every naming: the renaming must stay injective on root + components)
+            root = names[root_id] if it % 2 else ("p" if names[0].startswith("p") and names[1].startswith("p") else "proj")
             nm = lambda x: tuple([root] + [names[i] for i in x])
             dirs = [(root,)] + [nm(x) for x in inner]
 
